@@ -511,6 +511,8 @@ class Connection:
         )
 
         com_stmt_execute.stmt.param_buffers = None
+        # Executing a statement again discards the cursor of the previous execution
+        com_stmt_execute.stmt.cursor = None
 
         result_set = await self.query(
             com_stmt_execute.sql, com_stmt_execute.query_attrs
@@ -562,11 +564,13 @@ class Connection:
         assert stmt.cursor is not None
         count = 0
 
-        async for packet in cooperative_iterate(stmt.cursor):
-            if count >= com_stmt_fetch.num_rows:
-                break
-            await self.stream.write(packet, drain=False)
-            count += 1
+        # Only pull a row from the cursor if it is going to be sent
+        if com_stmt_fetch.num_rows > 0:
+            async for packet in cooperative_iterate(stmt.cursor):
+                await self.stream.write(packet, drain=False)
+                count += 1
+                if count >= com_stmt_fetch.num_rows:
+                    break
         await self.stream.drain()
 
         done = count < com_stmt_fetch.num_rows
